@@ -35,6 +35,9 @@ func (eval Evaluator) Average(ctIn *rlwe.Ciphertext, logBatchSize int, opOut *rl
 
 	level := utils.Min(ctIn.Level(), opOut.Level())
 
+	// The inner sum below is evaluated on the receiver: it must carry the metadata of the input.
+	*opOut.MetaData = *ctIn.MetaData
+
 	n := 1 << (ctIn.LogDimensions.Cols - logBatchSize)
 
 	// pre-multiplication by n^-1
